@@ -43,6 +43,27 @@ def judge(R, e, src, opt, family):
         R.violation("invalid:%s" % e.validation_error[0], "emitted module does not validate: %s (%s)" % e.validation_error, rep)
         return False
     R.count("modules_valid")
+    # the same module object written again (a tool that writes to two places, a caller that measures first): those bytes
+    # are emitted binaries too
+    from .. import nslapi
+    from ..ref import wasm_validate
+    for k in (2, 3):
+        try:
+            again = nslapi.wasm_bytes(e.out.wasm)
+        except Exception as ex:
+            R.count("rewrite_refused")
+            break
+        R.evaluations += 1
+        R.count("modules_written_again")
+        if again == e.data:
+            R.count("rewrites_identical")
+            continue
+        ok, stage, rule, detail = wasm_validate.validate_bytes(again)
+        if not ok:
+            R.violation("rewritten-module:%s:%s" % (stage, rule), "write number %d of one module object is not valid (%s: %s; %d bytes, first write %d bytes)"
+                        % (k, rule, detail, len(again), len(e.data)), dict(rep, mode="rewrite", write=k, bytes_hex=again.hex()[:4000]))
+            return False
+        R.count("rewrites_different_but_valid")
     if e.module.codes:
         R.nontriv(e.data.hex())
     R.maximum("max_functions", len(e.module.codes))
@@ -131,4 +152,11 @@ def finalize(M, tier):
 
 def replay(case):
     e = wasmrun.emit(case["sources"]["main"], bool(case.get("optimize")))
+    if case.get("mode") == "rewrite" and e.data is not None:
+        from .. import nslapi
+        from ..ref import wasm_validate
+        for k in range(2, int(case.get("write", 2)) + 1):
+            again = nslapi.wasm_bytes(e.out.wasm)
+        ok, stage, rule, detail = wasm_validate.validate_bytes(again)
+        return (not ok), {"write": case.get("write"), "rule": rule, "detail": detail}
     return bool(e.data is not None and (e.decode_error or e.validation_error)), {"refused": e.refused, "decode": e.decode_error, "validate": e.validation_error}
